@@ -281,8 +281,25 @@ class FormDataParser:
         ):
             raise RequestEntityTooLarge()
 
+        if self.max_form_memory_size is None:
+            data = stream.read()
+        else:
+            # The length may be unknown or understated, read at most one byte past
+            # the limit. A raw stream may return less than asked for.
+            chunks = []
+            remaining = self.max_form_memory_size + 1
+
+            while remaining > 0 and (chunk := stream.read(remaining)):
+                chunks.append(chunk)
+                remaining -= len(chunk)
+
+            if remaining <= 0:
+                raise RequestEntityTooLarge()
+
+            data = b"".join(chunks)
+
         items = parse_qsl(
-            stream.read().decode(),
+            data.decode(),
             keep_blank_values=True,
             errors="werkzeug.url_quote",
         )
